@@ -74,10 +74,10 @@ def handleStream (id kind spec tmpl obs : String) : String :=
     else if obs == "timeout" then s!"{id}\t{boolStr (!modelled)}\tfail:no-termination\t{mstr.take 300}"
     else
     match splitOnChar obs '|' with
-    | [cmd, dec, data, uni, acc, z, dyn, dep, card] =>
+    | [cmd, dec, data, uni, acc, z, dyn, dep, card, neg] =>
       match parseNat? dep, parseNat? card with
       | some dep, some card =>
-        let io : ClientParseSpec.ImplObs := { cmd := cmd, dec := dec, acc := acc, zero := z == "1", dyn := dyn == "1", depth := dep, card := card }
+        let io : ClientParseSpec.ImplObs := { cmd := cmd, dec := dec, acc := acc, zero := z == "1", dyn := dyn == "1", depth := dep, card := card, neg := neg == "1" }
         let agree := !modelled || mstr == s!"{cmd}|{dec}|{data}|{uni}"
         let orc := match ClientParseSpec.judge kind sp.cmdKind tag stream io with
           | none => "ok"
